@@ -116,28 +116,48 @@ def _int_of(e):
     raise ValueError(f"not a numeral: {e}")
 
 
+_FORCED = {}
+
+
+def _forced_value(assertions, when, var, what):
+    """the value that `assertions` force on the integer unknown `var` whenever `when` holds: decided by the solver
+    (a model of assertions /\ when gives the candidate c; assertions /\ when /\ var != c must be unsatisfiable),
+    not read from the syntactic shape of the assertions -- an If(..) rewritten as two implications is the same rule"""
+    # (cached with the formulas themselves: z3 recycles the ids of freed terms, an id alone is no key)
+    key = (tuple(f.get_id() for f in assertions), when.get_id(), var.get_id())
+    hit = _FORCED.get(key)
+    if hit is not None and len(hit[1]) == len(assertions) and all(a.eq(b) for a, b in zip(hit[1], assertions)) and hit[2].eq(when) and hit[3].eq(var):
+        return hit[0]
+    s = z3.Solver()
+    s.set("timeout", 20000)
+    s.add(*assertions)
+    s.add(when)
+    if s.check() != z3.sat:
+        raise ValueError(f"no parking point found for {what}: the case is not satisfiable")
+    c = s.model().eval(var, model_completion=True)
+    if not z3.is_int_value(c):
+        raise ValueError(f"no parking point found for {what}")
+    s.add(var != c)
+    if s.check() != z3.unsat:
+        raise ValueError(f"no parking point found for {what}: the value is not forced")
+    _FORCED[key] = (c.as_long(), list(assertions), when, var)
+    return c.as_long()
+
+
 def past_point(task):
-    """the (auxiliary) instant at which the library parks a task that is not scheduled: read from the
-    task's own `If(scheduled, rules, start == c and end == c)` assertion; from the user's point of view the
-    placement of an unscheduled task is existential, this is only the witness"""
-    sch = task._scheduled
-    for f in task.get_z3_assertions():
-        if z3.is_app(f) and f.decl().kind() == z3.Z3_OP_ITE and f.arg(0).eq(T(sch)):
-            parked = f.arg(2)
-            for eq in parked.children():
-                if z3.is_eq(eq) and eq.arg(0).eq(task._start):
-                    return _int_of(eq.arg(1))
-    raise ValueError(f"no parking point found for task {task.name}")
+    """the (auxiliary) instant at which the library parks a task that is not scheduled: the value the task's own
+    assertions force on its start when it is not scheduled.  From the user's point of view the placement of an
+    unscheduled task is existential; this is only the witness"""
+    return _forced_value(list(task.get_z3_assertions()), z3.Not(T(task._scheduled)), task._start, f"task {task.name}")
 
 
 def unselected_point(task, worker):
-    """the (auxiliary) instant at which the busy interval of a listed worker that is not selected is parked:
-    read from the task's own `If(selected, sync, busy_start == c and busy_end == c)` assertion"""
+    """the (auxiliary) instant at which the busy interval of a listed worker that is not selected is parked: the value
+    the task's own assertions force on that interval's start when the worker holds nothing (the interval lies in the
+    past)"""
     bs, be = worker._busy_intervals[task]
-    for f in task.get_z3_assertions():
-        if z3.is_app(f) and f.decl().kind() == z3.Z3_OP_ITE:
-            parked = f.arg(2)
-            for eq in parked.children():
-                if z3.is_eq(eq) and eq.arg(0).eq(bs):
-                    return _int_of(eq.arg(1))
-    raise ValueError(f"no parking point found for worker {worker.name} / task {task.name}")
+    when = bs < 0
+    if getattr(task, "optional", False):
+        # (a selected worker of a task that is not scheduled follows the task to *its* parking point: not that one)
+        when = z3.And(when, bs != past_point(task))
+    return _forced_value(list(task.get_z3_assertions()), when, bs, f"worker {worker.name} / task {task.name}")
